@@ -278,9 +278,53 @@ def evaluate(ctx, cases):
         #     file-like objects, and the caller's default
         if ctx.rng.random() < (0.06 if ctx.tier == "quick" else 0.25) and "err" not in impl.get("ctor", {}):
             _other_forms(ctx, c, inp, iv)
+        # a pointer is a value: one pointer object resolved again on the same document object, after the caller replaced a
+        # container on the way (or the member / element it ends in), must answer what a newly built pointer answers
+        if isinstance(c.get("loc"), (list, tuple)) and len(c["loc"]) >= 1 and in_scope and "err" not in impl.get("ctor", {}) \
+                and ctx.rng.random() < (0.05 if ctx.tier == "quick" else 0.3):
+            _history(ctx, c, inp)
         # exists agrees with resolve, always
         if ("ok" in iv) != (ie == {"ok": True}) and not ("err" in iv and iv["err"] not in RES_ERRS):
             ctx.violation("exists() disagrees with resolve()", inp, ie, {"ok": "ok" in iv})
+
+
+def _history(ctx, c, inp):
+    import copy
+    from jsonpath import JSONPointer
+
+    ctx.count("history")
+    doc = copy.deepcopy(c["doc"])
+    if not isinstance(doc, (dict, list)):
+        return
+    try:
+        p = JSONPointer(c["s"], unicode_escape=c["ue"])
+    except Exception:  # noqa: BLE001
+        return
+
+    def observe(ptr):
+        return [_canon_outcome(core.outcome(lambda: core.canon(ptr.resolve(doc)))), _canon_outcome(core.outcome(lambda: ptr.exists(doc))),
+                _canon_outcome(core.outcome(lambda: core.canon(ptr.resolve(doc, default="DEFAULT")))),
+                _canon_outcome(core.outcome(lambda: (lambda pr: [core.canon(pr[0]), core.canon(pr[1])])(ptr.resolve_parent(doc))))]
+    observe(p)
+    loc = list(c["loc"])
+    # replace the container `depth` steps down by an edited copy: shorter arrays, members dropped, or another kind of value
+    for depth in range(0, len(loc)):
+        holder = doc
+        try:
+            for t in loc[:depth]:
+                holder = holder[t]
+            key = loc[depth]
+            old = holder[key]
+        except Exception:  # noqa: BLE001
+            break
+        for new in ([] if isinstance(old, list) else {}, (old[:1] if isinstance(old, list) else {k: v for k, v in list(old.items())[:1]}) if isinstance(old, (list, dict)) else "changed", 7):
+            holder[key] = copy.deepcopy(new)
+            again, fresh = observe(p), observe(JSONPointer(c["s"], unicode_escape=c["ue"]))
+            if again != fresh:
+                ctx.violation("a pointer object resolved again on the same document object after the caller edited the document must answer what a newly built pointer answers",
+                              {**inp, "edit": {"at": [str(t) for t in loc[:depth + 1]], "new": core.canon(new)}}, again, fresh)
+            holder[key] = old
+        observe(p)
 
 
 def search(ctx):
